@@ -123,6 +123,7 @@ class Ctx:
         self.case_index = None
         self.case_desc = None
         self.inconclusive = []
+        self.records = {}
 
     # -- random streams ---------------------------------------------------
     def rng(self, i, salt=""):
@@ -169,6 +170,10 @@ class Ctx:
             }
         )
 
+    def record(self, key, value):
+        """Per-case record handed back to the driver (used by the differential checks C12/C13)."""
+        self.records[str(key)] = value
+
     def inconclusive_reason(self, reason):
         self.inconclusive.append(reason)
 
@@ -182,6 +187,7 @@ class Ctx:
             "counters": self.counters,
             "sets": {k: sorted(v) for k, v in self.sets.items()},
             "inconclusive": self.inconclusive,
+            "records": self.records,
         }
 
 
@@ -412,36 +418,60 @@ def drive(check_id, tier, seed, replay=None):
     return 0
 
 
+def run_jobs(mod, check_id, tier, seed, work, jobs):
+    """jobs: list of (tag, hashseed, shard k, nshards, extra_env).  Runs them with at most VERIF_JOBS at a time.
+    -> ({tag: result dict}, [inconclusive reasons])"""
+    ncpu = int(os.environ.get("VERIF_JOBS", os.cpu_count() or 4))
+    timeout = float(os.environ.get("VERIF_SHARD_TIMEOUT", "3300"))
+    pending = list(jobs)
+    running = []
+    results, extra = {}, []
+    t0 = time.time()
+
+    def reap(block):
+        for item in list(running):
+            tag, out, p, logf = item
+            if p.poll() is None:
+                if time.time() - t0 > timeout:
+                    p.kill()
+                    p.wait()
+                    extra.append(f"job {tag} timed out (watchdog)")
+                    running.remove(item)
+                continue
+            running.remove(item)
+            logf.seek(0)
+            so = logf.read()
+            logf.close()
+            if p.returncode != 0 or not os.path.exists(out):
+                extra.append(f"job {tag} died rc={p.returncode}: {so[-500:]}")
+                continue
+            with open(out) as f:
+                results[tag] = json.load(f)
+
+    while pending or running:
+        while pending and len(running) < ncpu:
+            tag, hashseed, k, n, extra_env = pending.pop(0)
+            env = child_env(getattr(mod, "NEEDS_SHIM", False), hashseed)
+            if extra_env:
+                env.update(extra_env)
+            out = os.path.join(work, f"{tag}.json")
+            cmd = [PY, "-m", "vf.core", "--shard", check_id, tier, str(seed), str(k), str(n), out]
+            logf = open(os.path.join(work, f"{tag}.log"), "w+")
+            running.append((tag, out, subprocess.Popen(cmd, env=env, cwd=VERIF, stdout=logf, stderr=subprocess.STDOUT), logf))
+        reap(False)
+        if running:
+            time.sleep(0.05)
+    return results, extra
+
+
 def run_shards(mod, check_id, tier, seed, work, hashseed="0", tag="s", extra_env=None):
     n = budget_of(mod, tier)
     ncpu = int(os.environ.get("VERIF_JOBS", os.cpu_count() or 4))
     min_per = getattr(mod, "MIN_CASES_PER_SHARD", 8)
     nshards = max(1, min(ncpu, n // min_per if n >= min_per else 1))
-    env = child_env(getattr(mod, "NEEDS_SHIM", False), hashseed)
-    if extra_env:
-        env.update(extra_env)
-    procs = []
-    for k in range(nshards):
-        out = os.path.join(work, f"{tag}{k}.json")
-        cmd = [PY, "-m", "vf.core", "--shard", check_id, tier, str(seed), str(k), str(nshards), out]
-        procs.append((k, out, subprocess.Popen(cmd, env=env, cwd=VERIF, stdout=subprocess.PIPE, stderr=subprocess.STDOUT)))
-    timeout = float(os.environ.get("VERIF_SHARD_TIMEOUT", "3300"))
-    results, extra = [], []
-    t0 = time.time()
-    for k, out, p in procs:
-        try:
-            so, _ = p.communicate(timeout=max(5.0, timeout - (time.time() - t0)))
-        except subprocess.TimeoutExpired:
-            p.kill()
-            so, _ = p.communicate()
-            extra.append(f"shard {k} timed out (watchdog)")
-            continue
-        if p.returncode != 0 or not os.path.exists(out):
-            extra.append(f"shard {k} died rc={p.returncode}: {so.decode(errors='replace')[-500:]}")
-            continue
-        with open(out) as f:
-            results.append(json.load(f))
-    return results, extra
+    jobs = [(f"{tag}{k}", hashseed, k, nshards, extra_env) for k in range(nshards)]
+    res, extra = run_jobs(mod, check_id, tier, seed, work, jobs)
+    return [res[t] for t, *_ in jobs if t in res], extra
 
 
 def do_replay(mod, check_id, path):
